@@ -10,6 +10,7 @@ Norm(o) ==  \* unused arguments are 0, so that every program has one representat
     CASE o.op = "new" -> o.b \in 0..(NClasses - 1) /\ o.c = Len(hist) + 1
       [] o.op \in {"stack"} -> o.b \in Slots /\ o.c \in Slots
       [] o.op = "copyassign" -> o.b \in Slots /\ o.c \in 1..3
+      [] o.op = "cloneinner" -> o.b \in Slots /\ o.c \in 2..3
       [] o.op = "mutate" -> o.b \in 1..3 /\ o.c = 50 + Len(hist)
       [] o.op \in {"pwrap", "pown", "pcopy", "pmove"} -> o.b \in PSlots /\ o.c = 0 /\ (o.op \in {"pcopy", "pmove"} => o.a \in PSlots)
       [] o.op = "prelease" -> o.a \in PSlots /\ o.b \in Slots /\ o.c = 0
